@@ -333,12 +333,14 @@ const NUMS: [&str; 20] = ["0", "-0", "1", "1.0", "1e2", "10", "2", "-1.5E-3", "9
 const STRS: [&str; 12] = ["", "a", "b", "a string that is longer than sixteen bytes", "é", "\u{ffff}", "\u{10ffff}", "\u{e000}", "\u{10e000}", "0123456789abcde", "0123456789abcdef", "0123456789abcdefg"];
 
 pub fn gen_v(rng: &mut Rng, depth: usize) -> V {
-    match rng.below(if depth == 0 { 12 } else { 9 }) {
+    // containers inside containers down to four levels (with falling odds), so that a comparison, a
+    // hash or a clone that treats deeper levels differently has something to meet
+    match rng.below(match depth { 0 => 12, 1 => 11, 2 => 10, _ => 9 }) {
         0 | 1 => V::Null,
         2 => V::Bool(rng.chance(1, 2)),
         3..=5 => V::Num(rng.pick(&NUMS).to_string()),
         6..=8 => V::Str(rng.pick(&STRS).to_string()),
-        9 | 10 => V::Arr((0..rng.below(3)).map(|_| gen_v(rng, depth + 1)).collect()),
+        9 | 11 => V::Arr((0..rng.below(3)).map(|_| gen_v(rng, depth + 1)).collect()),
         _ => V::Obj((0..rng.below(4)).map(|_| (rng.pick(&["a", "b", "", "a"]).to_string(), gen_v(rng, depth + 1))).collect()),
     }
 }
